@@ -67,6 +67,24 @@ def gen_cases(ctx, langs, n):
                 if any(m[4] == 1 for m in sy.multi) and re.match(r"--\[=*\[", t):
                     continue
                 cases.append({"sy": sy, "L": ["x = 1", "y = 2"], "i": rng.randint(0, 2), "nl": line, "tag": "directed-glue"})
+    # directed: a comment-only line whose TEXT mentions a block opener of the language, behind indentation of one-,
+    # two- and three-byte white space (positions counted in characters and in bytes differ there)
+    WIDE = ["", "  ", "\t", "\u3000\u3000", "\u00a0\u2003\u3000", "\u3000 \u3000\u3000\u3000"]
+    for sy in langs:
+        ops = [m[0] for m in sy.multi if m[0] and m[4] == 0]
+        if any(m[4] == 1 for m in sy.multi):
+            ops += ["--[[", "--[=[", "--[==["]
+        for pre in sy.single:
+            for op in ops:
+                for ind in (WIDE if ctx.tier != "quick" else WIDE[:1] + rng.sample(WIDE[1:], 3)):
+                    for sep in (" ", ""):
+                        line = ind + pre + sep + op + " disabled for now"
+                        t = line.strip()
+                        if any(t.startswith(m[0]) for m in sy.multi if m[4] == 0 and m[0]):
+                            continue
+                        if any(m[4] == 1 for m in sy.multi) and re.match(r"--\[=*\[", t):
+                            continue
+                        cases.append({"sy": sy, "L": ["x = 1", "y = 2", "z = 3"], "i": rng.randint(0, 2), "nl": line, "tag": "directed-opener-in-comment-text"})
     for _ in range(n):
         sy = weighted_lang(rng, langs)
         nl = rng.randint(0, 8)
